@@ -442,6 +442,40 @@ func runC17(r *Runner) string {
 		}
 	}
 
+	// ---- very short inputs: every text decoder, every network, every length 0..6 (a few strings each), and
+	// Base58Check strings with a VALID checksum over payloads of 0..6 bytes (they pass the checksum test that
+	// stops random strings, and reach whatever looks at the payload next)
+	for _, op := range textOps {
+		for _, net := range nets {
+			if len(op) == 1 && net != "btc" {
+				continue
+			}
+			var pre []string
+			if len(op) > 1 {
+				pre = []string{net}
+			}
+			for n := 0; n <= 6; n++ {
+				for k := 0; k < 3; k++ {
+					var v string
+					switch k {
+					case 0:
+						v = r.fromAlphabet("123456789ABCDEFGHJKLMNPQRSTUVWXYZabcdefghijkmnopqrstuvwxyz", n)
+					case 1:
+						v = r.fromAlphabet("bcltb1qpzry9x8", n)
+					default:
+						v = string(r.bytesN(n))
+					}
+					c.do(op[0], append(append([]string{}, pre...), strHex(v)), op[0]+":very-short", n, true)
+				}
+				payload := r.bytesN(n)
+				if n > 0 && n%2 == 0 {
+					payload[0] = 0
+				}
+				c.do(op[0], append(append([]string{}, pre...), strHex(base58check.Encode(payload))), op[0]+":short-checked-payload", n, true)
+			}
+		}
+	}
+
 	// ---- structure-aware hostile inputs derived from valid encodings
 	for it := 0; it < iters; it++ {
 		t, _ := r.genTx(3, 3)
